@@ -602,6 +602,8 @@ def c11_gen(seed, run, tier):
             spec["ops"] = [{"op": "conv", "start": mrng.randrange(0, CONV_DAYS - n), "n": n}] + \
                           [{"op": "conv", "start": c, "n": 120} for c in CONV_CRITICAL]
         spec["kind"] = "conv"
+        if (run // every) % 2 == 1:
+            spec["pre_ops"].insert(0, {"op": "mpl_epoch", "epoch": MPL_EPOCHS[(run // every // 2) % len(MPL_EPOCHS)]})
         return spec
     n_inputs = len(world["inputs"])
     n_ops = mrng.randint(2, 6) if tier == "quick" else mrng.randint(2, 12)
@@ -661,7 +663,18 @@ def c11_gen(seed, run, tier):
         else:
             ops.insert(erng.randrange(len(ops) + 1), op)
     spec["ops"] = ops
+    _mpl_epoch(spec, erng)
     return spec
+
+
+MPL_EPOCHS = ["0000-12-31T00:00:00", "0000-12-31T00:00:00", "1970-01-01T00:00:00", "2000-01-01T00:00:00", "1900-01-01T00:00:00"]
+
+
+def _mpl_epoch(spec, erng):
+    """One run in eight starts under a non-default matplotlib date epoch (matplotlibrc date.epoch): date numbers
+    are relative to it, dates and unix times are not."""
+    if erng.random() < 0.125:
+        spec["pre_ops"].insert(0, {"op": "mpl_epoch", "epoch": erng.choice(MPL_EPOCHS)})
 
 
 def c11_execute(spec, workdir):
